@@ -555,6 +555,14 @@ func main() {
 		for i := 3; i < nq; i += 6 {
 			qs[i] = genPageProbe(qr, d, i/6)
 		}
+		// every 6th query (phase 5) is a fill probe: few buckets, zero to two of them empty,
+		// run with inner chunk sizes 1, 2 and 1024 like the tie probes
+		for i := 5; i < nq; i += 6 {
+			qs[i] = genFillProbe(qr, d, i/6)
+			for ci := range cells[i] {
+				cells[i][ci].Inner = probeInner[ci%len(probeInner)]
+			}
+		}
 		slot := <-sem
 		wg.Add(1)
 		go func(d *dataset, slot int) {
